@@ -278,6 +278,16 @@ fn describe(event: &TestEvent<'_>) -> Value {
         } => json!({"kind": "RunFinished", "run_id": run_id.to_string(),
             "elapsed_ns": elapsed.as_nanos() as u64, "stats": stats(run_stats)}),
     };
+    // C17: the JUnit store flags a finished setup script carries (tests report theirs above)
+    if let TestEventKind::SetupScriptFinished {
+        junit_store_success_output,
+        junit_store_failure_output,
+        ..
+    } = &event.kind
+    {
+        v["junit_store_success_output"] = json!(junit_store_success_output);
+        v["junit_store_failure_output"] = json!(junit_store_failure_output);
+    }
     v["t_ns"] = json!(event.elapsed.as_nanos() as u64);
     #[cfg(unix)]
     {
